@@ -91,6 +91,16 @@ func genTableWorld(r *Rng, mix tableMix) *World {
 			if mix.garbageRemove && r.Pct(15) {
 				op.Pattern = pick(r, pool)
 			}
+			if mix.facade {
+				switch r.Intn(4) {
+				case 0:
+					op.K = "rclean" // Resource(pattern).Clean(): exactly this pattern, not what extends it
+				case 1:
+					op.Via = "resource"
+				case 2:
+					op.Via = "prefix:" + op.Pattern[:r.Intn(len(op.Pattern))]
+				}
+			}
 		case k < mix.pRemove+mix.pRemoveM && len(m.Order) > 0:
 			op.K = "remove"
 			op.Pattern = pick(r, m.Order)
@@ -232,6 +242,10 @@ func execTable(w *World, st *Stats, orc tableOracle, extra ...mux.Option) (*Viol
 				return v, info
 			}
 		} else if op.K == "req" {
+			for k, f := range op.Faults { // fault state is per execution
+				f.fired = false
+				f.value = f.makeValue(i*10 + k)
+			}
 			o := Serve(c.r, *op.Req, op.Faults, nil)
 			c.hash = hashStr(c.hash, o.Key())
 			st.C("op_req")
